@@ -2,6 +2,7 @@ package main
 
 import (
 	"fmt"
+	"go/token"
 	"go/types"
 	"strings"
 
@@ -16,13 +17,15 @@ type mapEntry struct {
 	val     value
 	ckey    string // canonical string when the key is fully concrete, else ""
 	deleted bool
+	tomb    bool // log mode: this entry records a deletion of key
 }
 
 type mapVal struct {
 	t       *types.Map
 	entries []*mapEntry
-	idx     map[string]*mapEntry // concrete keys
+	idx     map[string]*mapEntry // concrete keys (only meaningful while !logMode)
 	nsym    int                  // number of live entries with symbolic keys
+	logMode bool                 // entries is a last-write-wins log that may contain aliasing keys / tombstones
 }
 
 func newMap(t *types.Map) *mapVal {
@@ -124,28 +127,120 @@ func (c *Ctx) mapFind(m *mapVal, key value) *mapEntry {
 		}
 	}
 	kt := m.t.Key()
-	for _, e := range m.entries {
+	for i := len(m.entries) - 1; i >= 0; i-- {
+		e := m.entries[i]
 		if e.deleted {
 			continue
 		}
 		if concrete && e.ckey != "" {
+			if e.ckey == ck {
+				if e.tomb {
+					return nil
+				}
+				return e
+			}
 			continue // both concrete and different
 		}
 		eq := c.equals(kt, key, e.key)
 		if eq.Op == OpBConst {
 			if eq.B {
+				if e.tomb {
+					return nil
+				}
 				return e
 			}
 			continue
 		}
 		if c.decideBool(eq, 0) {
+			if e.tomb {
+				return nil
+			}
 			return e
 		}
 	}
 	return nil
 }
 
+func mergeableVal(v value) bool {
+	switch v := v.(type) {
+	case *Term, bigVal, u256Val:
+		return true
+	case structure:
+		for _, e := range v {
+			if !mergeableVal(e) {
+				return false
+			}
+		}
+		return true
+	case array:
+		for _, e := range v {
+			if !mergeableVal(e) {
+				return false
+			}
+		}
+		return true
+	}
+	return false
+}
+
 func (c *Ctx) mapInsert(m *mapVal, key, val value) {
+	ck, concrete := canonKey(key)
+	if c.h.mergeMaps && (m.logMode || !concrete || m.nsym > 0) && mergeableVal(val) && c.allMergeable(m) {
+		// log mode: record the write without deciding whether the key aliases an earlier one
+		m.logMode = true
+		e := &mapEntry{key: copyVal(key), val: copyVal(val)}
+		if concrete {
+			e.ckey = ck
+		} else {
+			m.nsym++
+		}
+		m.entries = append(m.entries, e)
+		return
+	}
+	if m.logMode {
+		c.mapNormalise(m)
+	}
+	if e := c.mapFind(m, key); e != nil {
+		e.val = copyVal(val)
+		return
+	}
+	e := &mapEntry{key: copyVal(key), val: copyVal(val)}
+	if ck, ok := canonKey(key); ok {
+		e.ckey = ck
+		m.idx[ck] = e
+	} else {
+		m.nsym++
+	}
+	m.entries = append(m.entries, e)
+}
+
+func (c *Ctx) allMergeable(m *mapVal) bool {
+	for _, e := range m.entries {
+		if !e.tomb && !mergeableVal(e.val) {
+			return false
+		}
+	}
+	return true
+}
+
+// mapNormalise turns a last-write-wins log into a set of distinct live entries by deciding
+// (forking on) key aliasing; needed for len() and range.
+func (c *Ctx) mapNormalise(m *mapVal) {
+	if !m.logMode {
+		return
+	}
+	log := m.entries
+	m.entries, m.idx, m.nsym, m.logMode = nil, map[string]*mapEntry{}, 0, false
+	for _, e := range log {
+		if e.tomb {
+			c.mapDelete(m, e.key)
+		} else {
+			c.mapInsertDistinct(m, e.key, e.val)
+		}
+	}
+}
+
+func (c *Ctx) mapInsertDistinct(m *mapVal, key, val value) {
 	if e := c.mapFind(m, key); e != nil {
 		e.val = copyVal(val)
 		return
@@ -161,6 +256,16 @@ func (c *Ctx) mapInsert(m *mapVal, key, val value) {
 }
 
 func (c *Ctx) mapDelete(m *mapVal, key value) {
+	if m.logMode {
+		e := &mapEntry{key: copyVal(key), tomb: true}
+		if ck, ok := canonKey(key); ok {
+			e.ckey = ck
+		} else {
+			m.nsym++
+		}
+		m.entries = append(m.entries, e)
+		return
+	}
 	e := c.mapFind(m, key)
 	if e == nil {
 		return
@@ -182,7 +287,8 @@ func (c *Ctx) mapDelete(m *mapVal, key value) {
 }
 
 func (c *Ctx) mapLen(m *mapVal) *Term {
-	// distinctness of symbolic keys was decided at insertion (mapFind forks), so entries are distinct.
+	c.mapNormalise(m)
+	// distinctness of symbolic keys has been decided (mapFind forks), so entries are distinct.
 	return CI(int64(len(m.entries)))
 }
 
@@ -199,6 +305,8 @@ func (c *Ctx) lookup(instr *ssa.Lookup, x, idx value) value {
 		if x != nil {
 			if r, ok := c.mapLookupMerged(x, idx, vt); ok {
 				v, found = r.v, r.found
+			} else if pv, pf, ok := c.mapLookupBigPtr(x, idx, instr.Pos()); ok {
+				v, found = pv, pf
 			} else if e := c.mapFind(x, idx); e != nil {
 				v, found = copyVal(e.val), TTrue
 			}
@@ -241,17 +349,28 @@ func (c *Ctx) mapLookupMerged(m *mapVal, key value, vt types.Type) (mergedLookup
 		return mergedLookup{}, false
 	}
 	_, concrete := canonKey(key)
-	if concrete && m.nsym == 0 {
+	if concrete && m.nsym == 0 && !m.logMode {
 		return mergedLookup{}, false // plain path handles it
 	}
 	kt := m.t.Key()
 	var res value = zero(vt)
 	found := TFalse
-	// later entries never alias earlier ones (distinct by construction), so order is irrelevant
-	for i := len(m.entries) - 1; i >= 0; i-- {
-		e := m.entries[i]
+	// oldest to newest, so that the newest write is the outermost ite (last write wins)
+	for _, e := range m.entries {
+		if e.deleted {
+			continue
+		}
 		eq := c.equals(kt, key, e.key)
 		if eq == TFalse {
+			continue
+		}
+		if e.tomb {
+			mv, ok := mergeVals(eq, zero(vt), res)
+			if !ok {
+				return mergedLookup{}, false
+			}
+			res = mv
+			found = And(Not(eq), found)
 			continue
 		}
 		mv, ok := mergeVals(eq, e.val, res)
@@ -274,6 +393,7 @@ func (c *Ctx) newMapIter(m *mapVal) iter {
 	if m == nil {
 		return it
 	}
+	c.mapNormalise(m)
 	ents := m.entries
 	order := make([]int, len(ents))
 	for i := range order {
@@ -318,4 +438,42 @@ func (it *mapIter) next(c *Ctx) tuple {
 	e := it.ents[it.pos]
 	it.pos++
 	return tuple{TTrue, copyVal(e.key), copyVal(e.val)}
+}
+
+// mapLookupBigPtr: lookup with a symbolic key in a map whose values are non-nil *big.Int (read-only
+// tables such as types.Denominations): one decision on presence, then the result is a fresh frozen
+// cell holding the ite of the pointees (writes through a frozen cell abort as unsupported).
+func (c *Ctx) mapLookupBigPtr(m *mapVal, key value, pos token.Pos) (value, *Term, bool) {
+	if !c.h.mergeMaps || m.logMode || len(m.entries) == 0 {
+		return nil, nil, false
+	}
+	if _, concrete := canonKey(key); concrete && m.nsym == 0 {
+		return nil, nil, false
+	}
+	for _, e := range m.entries {
+		p, ok := e.val.(*value)
+		if !ok || p == nil {
+			return nil, nil, false
+		}
+		if _, isBig := (*p).(bigVal); !isBig {
+			return nil, nil, false
+		}
+	}
+	kt := m.t.Key()
+	found := TFalse
+	var res *Term = CI(0)
+	for _, e := range m.entries {
+		eq := c.equals(kt, key, e.key)
+		if eq == TFalse {
+			continue
+		}
+		found = Or(eq, found)
+		res = Ite(eq, (*(e.val.(*value))).(bigVal).t, res)
+	}
+	if !c.decideBool(found, pos) {
+		return (*value)(nil), TFalse, true
+	}
+	var box value = bigVal{res}
+	c.frozen[&box] = true
+	return &box, TTrue, true
 }
